@@ -14,7 +14,7 @@ func VerifSpanOrder(t *Table) []int {
 	}
 	ps := make([]tagged, len(t.cells))
 	for i, c := range t.cells {
-		ps[i] = tagged{c.span, i}
+		ps[i] = tagged{int(c.span), i}
 	}
 	sort.Slice(ps, func(i, j int) bool {
 		return ps[i].span < ps[j].span
